@@ -149,6 +149,12 @@ LateOf(s, h) == IF "late" \in DOMAIN s THEN s.late[h] ELSE FALSE
 OnceOf(s, n) == IF "once" \in DOMAIN s THEN s.once[n] ELSE FALSE
 Faulty(n, tag) == sc.fail[n] = tag /\ (~OnceOf(sc, n) \/ ~failedEver)
 
+\* sc.ptr[h]: the single-valued targets of h that are wired through a POINTER-typed point (*T): only the raw component fits
+\* such a field.  A version a post-processor substituted (an object of another type) does not - it counts as not found: the
+\* required point fails with an error (fix F17; the pinned code panicked in reflect.Set).
+PtrOf(s, h) == IF "ptr" \in DOMAIN s THEN s.ptr[h] ELSE {}
+Unfit(h, t, v) == t \in PtrOf(sc, h) /\ v.o # "raw"
+
 \* Meta.IsSelf: the candidate's origin address is the holder's own object
 IsSelf(h, v) == v.n = h /\ v.o = "raw"
 
@@ -161,6 +167,8 @@ Deliver(f, t, v, wasSlice, deps0) ==
   IF ~wasSlice THEN
      IF IsSelf(h, v)
      THEN [f |-> IF sc.selfOpt[h] THEN f ELSE [f EXCEPT !.pc = "fail"], fS |-> fS, fL |-> fL, deps |-> deps0]
+     ELSE IF Unfit(h, t, v)
+     THEN [f |-> [f EXCEPT !.pc = "fail"], fS |-> fS, fL |-> fL, deps |-> deps0]
      ELSE [f |-> f, fS |-> [fS EXCEPT ![h][t] = v], fL |-> fL,
            deps |-> [deps0 EXCEPT ![v.n][v.k] = @ \cup {h}]]
   ELSE
